@@ -633,8 +633,13 @@ class SizeFlow:
                     vs = {v.key() for v, _ in lst}
                 if len(vs) != 1:
                     raise Unsupported('loop paths disagree in %s' % b.path)
-                per = lst[0][0].sub(base[0][0])
                 coll = self._loop_coll(b, lst[0][1], it[0])
+                gen = None if emit else loop_generalise(lst[0][0], base[0][0], coll)
+                if gen is not None:
+                    # the accumulated value also feeds a non-linear term (the length of its own length prefix)
+                    tot = tot.add(gen.sub(base[0][0]))
+                    continue
+                per = lst[0][0].sub(base[0][0])
                 tot = tot.add(mk_sum(coll, per))
                 evs = evs + (('loop', mk_sum(coll, per), 'for', coll, [e for e in lst[0][1].env.get('__ev', ())]),)
             if emit:
@@ -763,6 +768,45 @@ def mk_sum(coll, per):
     if per.is_const():
         return Lin.atom(('len', coll), per.c) if per.c else Lin()
     return Lin.atom(('sum', coll, per.key()))
+
+
+def loop_generalise(one, zero, coll):
+    """Value of a function on the path with one loop iteration (`one`) and with none (`zero`), where the accumulated value
+    also appears below vil(): vil(X + per(item)) against vil(X). -> the value for any number of iterations, vil(X + sum(coll,
+    per)) + sum(coll, per'), or None when the difference is an ordinary linear one (handled by the caller)."""
+    d = one.sub(zero)
+    def has_item(t):
+        st = [t]
+        while st:
+            x = st.pop()
+            if isinstance(x, tuple) and x:
+                if x[0] == 'item' and len(x) > 1 and x[1] == coll:
+                    return True
+                if x[0] == 'sum' and len(x) > 1 and x[1] == coll:
+                    continue    # bound by the sum
+                st.extend(y for y in x if isinstance(y, tuple))
+        return False
+    neg = [a for a, k in d.t.items() if a[0] == 'vil' and k == -1 and not has_item(a)]
+    if len(neg) != 1:
+        return None
+    xz = thaw(neg[0][1])
+    def item_only(l):
+        return all(has_item(a) for a in l.t)
+    pos = []
+    for a, k in d.t.items():
+        if a[0] == 'vil' and k == 1 and a != neg[0]:
+            xi = thaw(a[1])
+            inner = loop_generalise(xi, xz, coll)
+            if inner is None and item_only(xi.sub(xz)) and xi.sub(xz) != Lin():
+                inner = xz.add(mk_sum(coll, xi.sub(xz)))
+            if inner is not None:
+                pos.append((a, inner))
+    if len(pos) != 1:
+        return None
+    rest = Lin(d.c, {a: k for a, k in d.t.items() if a not in (pos[0][0], neg[0])})
+    if not item_only(rest):
+        return None
+    return zero.sub(Lin.atom(neg[0])).add(vil(pos[0][1])).add(mk_sum(coll, rest))
 
 
 def has_leaf_kind(t, kind):
